@@ -1,4 +1,4 @@
-CONSTANTS Families = {"one", "rsv"}  Bug = "NoRangeTest"  Emit = FALSE
+CONSTANTS Families = {"mini"}  Bug = "NoRangeTest"  Emit = FALSE
   TwoFlags = {}
   TwoSizes = {}
   ThreeSizes = {}
